@@ -260,6 +260,27 @@ Definition waiter_canonical : list wop :=
 Definition waiter_bounded : list wop :=
   [WEmitRunning; WSpawnPump 0; WSpawnPump 1; WSelect; WJoin 0 JBounded; WJoin 1 JBounded; WEmitCancelled; WEmitFinal].
 
+(* ---------- the cancel channel as run_task subscribes to it today ----------
+   `step` lets a cancel request made at ANY moment be taken in the select (an over-approximation that also
+   covers a run_task that would look at the channel's current value).  The code today: POST /tasks/{id}/cancel
+   is `cancel_tx.send_replace(Some(reason))`; run_task's FIRST statement is `handle.cancel_tx.subscribe()`, which
+   marks the value current at that moment as seen, and the select waits for `cancel_rx.changed()`.  A request
+   that arrives after create_task registered the handle but before the spawned run_task is first polled is
+   answered 202 and never noticed.  `step_sub` is `step` with exactly this: the spawn-frame step (run_task's
+   start) forgets a pending request. *)
+Definition step_sub (s : sys) (a : act) : option sys :=
+  match a with
+  | ASpawnFrame =>
+    match s_main s with
+    | MStart =>
+      Some {| s_main := MSpawnedPc; s_p0 := s_p0 s; s_p1 := s_p1 s; s_child_exited := s_child_exited s;
+              s_cancel_flag := false; s_trace := LSpawned :: s_trace s |}
+    | _ => None end
+  | _ => step s a
+  end.
+Definition step_skip_sub (s : sys) (a : act) : sys := match step_sub s a with Some s' => s' | None => s end.
+Definition run_sub (sched : list act) : sys := fold_left step_skip_sub sched sys0.
+
 (* a schedule is any list of actions; disabled actions are skipped (so EVERY list is a schedule) *)
 Definition step_skip (s : sys) (a : act) : sys := match step s a with Some s' => s' | None => s end.
 Definition run (sched : list act) : sys := fold_left step_skip sched sys0.
